@@ -65,6 +65,9 @@ def configs(tier):
             # parameter source decides (finite source, no iterations / time period): progress comes from the source
             for tgt in (None, ("det", 10)):
                 yield ("source", clients, word, tgt, (1, "ops"), (3,), None)
+                # only warmup-iterations given: the finite source still ends the task, the first requests are warm-up
+                for w in (1, 3, 5):
+                    yield ("source", clients, word, tgt, (1, "ops"), (4, w), None)
             # explicit iterations on a finite parameter source: whichever ends first decides (source sizes below, at and above w + n)
             for w, n in ((None, 2), (1, 2), (2, 3)):
                 for m in (1, (w or 0) + n - 1, (w or 0) + n, (w or 0) + n + 1, 20):
@@ -162,6 +165,10 @@ def build(cfg):
             task_kw["ramp_up_time_period"] = ramp
     else:
         op_params["source-size"] = lc[0]
+        if len(lc) > 1:
+            task_kw["warmup_iterations"] = lc[1]
+    if "source-size" in op_params:
+        op_params["parent-infinite"] = True
     task = loadgen.make_task("t", "t", clients=clients, op_params=op_params, params=tparams, **task_kw)
     if kind == "completing":
         e["runner"].register_runner("verif-completing-op", CompletingRunner(), async_runner=True)
@@ -289,8 +296,11 @@ def check(cfg, res):
                         if v:
                             break
             else:
+                w = lc[1] if len(lc) > 1 else 0
                 if len(ss) != lc[0]:
-                    v = ("source-size", f"{ctx}: {len(ss)} requests for a parameter source of {lc[0]}")
+                    v = ("source-size", f"{ctx}: {len(ss)} requests for a parameter source of {lc[0]}" + (f" (warmup-iterations={w}, no iterations: the source ends the task)" if len(lc) > 1 else ""))
+                elif types != ([W] * w + [N] * lc[0])[: lc[0]]:
+                    v = ("warmup-flags", f"{ctx}: {types} for warmup-iterations={w} on a parameter source of {lc[0]}")
             if v:
                 break
             # pacing
@@ -380,10 +390,86 @@ def check_par_ramp(cfg, res):
         res.violation(f"schedule:{v[0]}:parallel", f"parallel ramp-up {cfg[1:]}: {v[1]}", {"par_ramp": [list(sizes), list(word), ramp, cap]})
 
 
+def driver_progress_configs(tier):
+    for clients in (2, 3):
+        for per_client in ((2, 3) if tier == "thorough" or clients == 2 else (2,)):
+            yield ("driver-progress", clients, per_client)
+
+
+def check_driver_progress(cfg, res):
+    """what the user sees: the real Driver.update_samples / update_progress_message fed with every arrival history of the clients' samples.
+    Once every client of the step has reported, the displayed progress never decreases and ends at 100 % (before that the display is an
+    average over the clients heard of so far, which the statement does not pin down)."""
+    import itertools as it
+
+    from checks import sched_common as sc
+    from esrally.driver import driver
+
+    e = loadgen.setup()
+    _, clients, per_client = cfg
+    task = loadgen.make_task("t", "t", clients=clients, iterations=per_client + 1)
+    N = e["metrics"].SampleType.Normal
+
+    def sample(c, j):
+        # sample j of client c: progress (j + 1) / (per_client + 1)
+        return driver.Sample(c, 1000.0 + j, 50.0 + j, 50.0, task, N, None, 0.0, 0.0, 0.0, None, 1, "ops", float(j), (j + 1) / (per_client + 1))
+
+    rest = [(c, j) for c in range(clients) for j in range(1, per_client + 1)]
+    seqs = set()
+    for perm in it.permutations(range(len(rest))):
+        seq = tuple(rest[i] for i in perm)
+        if all(seq.index((c, j)) < seq.index((c, j + 1)) for c in range(clients) for j in range(1, per_client)):
+            seqs.add(seq)
+    for seq in sorted(seqs):
+        for cuts in it.product((0, 1), repeat=len(seq) - 1):
+            batches, cur = [], [seq[0]]
+            for x, cut in zip(seq[1:], cuts):
+                if cut:
+                    batches.append(cur)
+                    cur = []
+                cur.append(x)
+            batches.append(cur)
+            v = None
+            try:
+                d = object.__new__(driver.Driver)
+                d.quiet = False
+                d.tasks_per_join_point = [[task]]
+                d.current_step = 0
+                d.raw_samples = []
+                d.most_recent_sample_per_client = {}
+                d.progress_reporter = sc._Recorder()
+                shown = []
+                for batch in [[(c, 0) for c in range(clients)]] + batches:
+                    d.update_samples([sample(c, j) for c, j in batch])
+                    d.update_progress_message()
+                    shown.append(d.progress_reporter.lines[-1][1])
+            except (AttributeError, TypeError) as ex:
+                res.count("driver_progress_oracle_skipped")
+                return
+            pct = [int(x.strip("[]% done")) for x in shown]
+            if any(b < a for a, b in zip(pct, pct[1:])):
+                v = ("displayed-progress-decreases", f"display {shown}")
+            elif any(not 0 <= x <= 100 for x in pct):
+                v = ("displayed-progress-range", f"display {shown}")
+            elif pct[-1] != 100:
+                v = ("displayed-progress-final", f"every client has delivered its last sample, display {shown}")
+            res.case(
+                case_repr={"loop": "driver-progress", "clients": clients, "batches": [[list(x) for x in b] for b in batches], "display": shown} if res.sample_now(1201) else None,
+                nontrivial_key=("dp", clients, per_client, seq, cuts),
+                outcome_key=("dp", tuple(pct)[-3:], v[0] if v else "ok"),
+            )
+            if v:
+                res.violation(f"schedule:{v[0]}:driver", f"{clients} clients, batches of (client, sample) after the first round {batches}: {v[1]}",
+                              {"driver_progress": [clients, per_client]})
+                return
+
+
 def _job(cfgs):
     res = Result()
     for cfg in cfgs:
-        if cfg[0] == "par-ramp":
+        if cfg[0] == "driver-progress":
+            check_driver_progress(cfg, res)
+        elif cfg[0] == "par-ramp":
             check_par_ramp(cfg, res)
         else:
             check(cfg, res)
@@ -391,7 +477,7 @@ def _job(cfgs):
 
 
 def run(tier, seed):
-    cfgs = list(configs(tier)) + list(par_ramp_configs(tier))
+    cfgs = list(configs(tier)) + list(par_ramp_configs(tier)) + list(driver_progress_configs(tier))
     res = par.pmap(_job, par.chunks(cfgs, par.NPROC * 8), seed=seed)
     res.extra["configurations"] = len(cfgs)
     res.states = res.evaluations
@@ -401,6 +487,9 @@ def run(tier, seed):
 
 def replay(data):
     res = Result()
+    if "driver_progress" in data:
+        check_driver_progress(("driver-progress", data["driver_progress"][0], data["driver_progress"][1]), res)
+        return [v for lst in res.violations.values() for v in lst]
     if "par_ramp" in data:
         pr = data["par_ramp"]
         check_par_ramp(("par-ramp", tuple(pr[0]), tuple(pr[1]), pr[2], pr[3]), res)
